@@ -717,6 +717,11 @@ func runOnce(c C18Case) verdict {
 			t1 := time.Now()
 			err := issue(a, op, tagOf(i))
 			h.note("%s %s returned %v after %v", op, tagOf(i), err, time.Since(t1).Round(time.Microsecond))
+			if c.StopAfter != "" && i == len(c.Ops)-1 {
+				// Stop follows at a drawn distance: nothing is waited for or looked at in
+				// between; everything is judged after Stop
+				break
+			}
 			// a plugin that failed on its own earlier has been dropped by now at the latest
 			for _, pd := range pending {
 				if v := notReaped(fmt.Sprintf("after request %s (the first request after the plugin closed its connection following its event %d)", tagOf(i), pd.p.K), pd.r, pd.p); v.out.Fail != "" {
@@ -754,6 +759,9 @@ func runOnce(c C18Case) verdict {
 	}
 
 	// --- stop ------------------------------------------------------------------------------
+	if d := stopDelays[c.StopAfter]; d > 0 && startErr == nil {
+		time.Sleep(d)
+	}
 	t2 := time.Now()
 	a.Stop()
 	stopped = true
@@ -1093,7 +1101,7 @@ func judge(c C18Case, h *history, startErr error, reports []Report, lines []Line
 		}
 		dropped := false
 		for key, p := range active {
-			if !p.ext && p.k == i+1 && (p.behav == bDie || p.behav == bDieAfter || p.behav == bLinger || p.behav == bHang) {
+			if !p.ext && p.k == i+1 && (p.behav == bDie || p.behav == bDieAfter || p.behav == bLinger || p.behav == bCloseAt || p.behav == bHang) {
 				delete(active, key)
 				dropped = true
 				dropsAtEvent++
@@ -1193,6 +1201,36 @@ func judge(c C18Case, h *history, startErr error, reports []Report, lines []Line
 	}
 	if misbehaving > 0 {
 		cls("with_misbehaving")
+	}
+	// launched plugins whose running processes one and the same request finds closed (they
+	// closed their connection or hung in that request, or closed it after the previous one)
+	if !runtimeStartFailure && startErr == nil {
+		most, atLast := 0, 0
+		for e := 1; e <= len(c.Ops); e++ {
+			n := 0
+			for _, p := range expectLaunch {
+				if ((p.Behav == bCloseAt || p.Behav == bHang) && p.K == e) || (p.Behav == bLinger && p.K == e-1) {
+					n++
+				}
+			}
+			if n > most {
+				most = n
+			}
+			if e == len(c.Ops) {
+				atLast = n
+			}
+		}
+		if most >= 2 {
+			cls(fmt.Sprintf("running_plugins_dropped_by_one_request:%d", most))
+		}
+		sa := c.StopAfter
+		if sa == "" {
+			sa = "settled"
+		}
+		cls("stop_after:" + sa)
+		if atLast >= 2 && (c.StopAfter == "0" || c.StopAfter == "1ms") {
+			cls("several_running_plugins_dropped_by_last_request_then_stop_within_1ms")
+		}
 	}
 	if c.SyncFn != "" {
 		cls("runtime_syncfn:" + c.SyncFn)
@@ -1347,12 +1385,12 @@ func TestExh_C18(t *testing.T) {
 	defer r.Flush()
 	ops := []string{"RunPodSandbox", "CreateContainer", "StartContainer", "StopContainer"}
 	var cases []C18Case
-	for i, b := range []string{bOK, bExit, bSleep, bCloseFD, bCfgFail, bCfgHang, bSyncFail, bDie, bDieAfter, bLinger, bHang, bGarbage} {
+	for i, b := range []string{bOK, bExit, bSleep, bCloseFD, bCfgFail, bCfgHang, bSyncFail, bDie, bDieAfter, bLinger, bCloseAt, bHang, bGarbage} {
 		x := Plugin{Idx: "20", Stem: "x", Behav: b, Mode: 0o755}
 		switch b {
 		case bExit:
 			x.K = 1
-		case bDie, bDieAfter, bLinger, bHang:
+		case bDie, bDieAfter, bLinger, bCloseAt, bHang:
 			x.K = 2
 		case bGarbage:
 			x.Garbage = []string{"empty", "text", "elf"}[i%3]
@@ -1403,6 +1441,29 @@ func TestExh_C18(t *testing.T) {
 		Listen:  true,
 		Exts:    []Ext{{Idx: "10", Name: "e0", Join: 0, Leave: 2}, {Idx: "20", Name: "e1", Join: 1, Leave: len(ops) + 1}, {Idx: "05", Name: "e2", Join: 3, Leave: 4}},
 	})
+	// several launched plugins are found closed, with their processes running, by the last
+	// request, and Stop follows at once / 1 ms / 20 ms later
+	for _, v := range []struct {
+		behav []string
+		stop  string
+	}{
+		{[]string{bCloseAt, bCloseAt, bCloseAt, bCloseAt}, "0"},
+		{[]string{bCloseAt, bCloseAt, bCloseAt, bCloseAt}, "0"},
+		{[]string{bCloseAt, bLinger, bCloseAt, bLinger}, "0"},
+		{[]string{bCloseAt, bCloseAt, bCloseAt, bCloseAt}, "1ms"},
+		{[]string{bLinger, bLinger, bCloseAt}, "20ms"},
+	} {
+		c := C18Case{Ops: ops, StopAfter: v.stop}
+		for j, b := range v.behav {
+			k := len(ops)
+			if b == bLinger {
+				k = len(ops) - 1
+			}
+			c.Plugins = append(c.Plugins, Plugin{Idx: fmt.Sprintf("%d0", j+1), Stem: "q", Behav: b, K: k, Mode: 0o755})
+		}
+		c.Plugins = append(c.Plugins, Plugin{Idx: "25", Stem: "a", Behav: bOK, Mode: 0o755})
+		cases = append(cases, c)
+	}
 	// the runtime's own SyncFn fails during Start, before or after it ran nri's plugin-sync
 	// callback: with one healthy plugin, and with healthy ones among the usual bad ones
 	for _, mode := range []string{"fail_before", "fail_after"} {
